@@ -46,6 +46,19 @@ R5 (added) locations are unwrapped exactly once: every sibling command (`_get_ou
    through local maps).  `undeploy` passing an already unwrapped location to `_remove_jobs` was finding S13
    (repaired in /repo): with one-level stacking the second unwrap raises and no queued job is cancelled.
 
+Where the batch branch lives (B16-5: run split in two cooperating methods).  R1/R4 (and the lock / cache facts R2 uses)
+are decided on the function that contains the submission `job_id = await self._run_batch_command(...)`: `run` itself,
+or the private helper `run` reaches through resolved `self._helper(...)` calls (bound 2; only plain, undecorated,
+concrete methods defined in QueueManagerConnector and overridden nowhere are followed, so the analysed body is the
+code that runs).  Findings then name the helper and say through which call it was reached.  The links of the chain
+carry their own obligations, so nothing the un-split `run` was checked for is lost: R3 only `__init__`, the helper
+and `undeploy` write `_scheduled_jobs` / `_jobs_cache` (the remaining `run` may not); R4 every link awaits the helper
+and returns its result unchanged on every path (`id:forwarded:*`); R5 the helper receives a wrapping location
+(`unwrap:<caller>-><helper>`).
+Not decided: a *partial* split (submission + registration in one function, the wait loop / result collection in
+another) -- the order and atomicity clauses of R1 are CFG relations of one function; such a tree is refused
+(ANALYSIS-ERROR), not reported.
+
 Left out (DESIGN C27.R2 "key_maker=_const_key_maker" and "queries self._scheduled_jobs.keys()"): neither is a
 necessary condition.  `clear()` empties the cache whatever the keys are, and a listing that is *not* restricted
 to `_scheduled_jobs` is a superset, for which `job_id not in running_jobs` is still right; removing either is
@@ -70,7 +83,8 @@ JOBS = "_scheduled_jobs"
 
 META = {
     "explanation": (
-        "CFG rules on QueueManagerConnector.run (dominance and must-pass-through between submission, registration, "
+        "CFG rules on the batch branch of QueueManagerConnector.run -- in run itself or in the private helper it was split into, found through "
+        "resolved self-calls (bound 2), whose call chain must await and return the helper's result unchanged -- (dominance and must-pass-through between submission, registration, "
         "cache invalidation, polling, loop exit test, pop and return; lexical lock scope of the invalidation and of every "
         "poll), decorator facts of every concrete _get_running_jobs found through the class table, whole-program call "
         "sites and writers of _get_running_jobs/_scheduled_jobs/_jobs_cache, def-use of the job id, and def-use counting of "
